@@ -242,3 +242,21 @@ CHECKS["C05"] = {
     ],
     "floors": {"C05/fault_at_k": {"fault_fired": 0.7, "fault_mid_frame": 0.05, "fault_inside_a_callers_write": 0.1}},
 }
+
+CHECKS["C12"] = {
+    "pkg": "./conn",
+    "level": "exploration",
+    "rule": ("close: a workload of 0..2 RPCs with independently drawn client/handler programs (sequential or concurrent callers, optionally stalled directions, 1..3 of 9 scheduling points incl. the window inside terminate) "
+             "is advanced by 0..40 weighted director choices; then one of Conn.Close, two concurrent Conn.Close, cancel of the serving context, both, or Conn.Close racing a failing transport read is issued and the "
+             "transport is FROZEN. Oracle at quiescence: Close returned; every client (resp. handler) call returned; Closed() fired; the transport's Close was called exactly once; contexts of the active streams are done; calls "
+             "issued afterwards fail. Then bytes move again: the other side shuts down too, both transports closed exactly once, no goroutine with a storj.io/drpc frame remains. "
+             "serve: drpcserver.Serve on an in-memory listener with 0..3 accepted connections in drawn states (idle, handler blocked in Recv, handler blocked in Send on a stalled transport, finished RPC), optionally one more connection "
+             "offered at the instant of the stop; Serve is stopped by context cancel or listener failure. Oracle recorded by the goroutine that called Serve at the instant it returns: every accepted transport closed exactly once and no ServeOne goroutine alive. "
+             "Non-trivial: operations in flight at the close (close); a running handler or a late connection (serve)."),
+    "assumptions": E3_ASSUME + ["handlers only block inside drpc calls", "with SoftCancel a cancelled serving context first sends a cancel packet (known finding F13, see C04): the simulated transport then accepts, but never delivers, the server's bytes"],
+    "subs": [
+        {"test": "TestC12Close", "prop": "C12/close", "quick": 16000, "thorough": 600000, "shards_quick": 16, "shards_thorough": 16, "gomaxprocs": 1},
+        {"test": "TestC12Serve", "prop": "C12/serve", "quick": 2000, "thorough": 60000, "shards_quick": 4, "shards_thorough": 16, "gomaxprocs": 1},
+    ],
+    "floors": {"C12/close": {"client_ops_in_flight": 0.25, "handler_ops_in_flight": 0.015, "write_parked_in_transport": 0.1, "idle": 0.1}, "C12/serve": {"handlers_running": 0.4}},
+}
